@@ -239,6 +239,16 @@ func (e *Engine) oblige(st *State, kind, name string, goal *Term, pos token.Pos,
 	if props == nil {
 		props = e.cur.c.Props
 	}
+	if e.cur.c != nil && e.cur.c.Opts["safety"] == "assumed" {
+		// "opt safety assumed": the zero-annotation safety obligations of this (large) function are not generated; its
+		// contract is about call-site clauses only. Recorded as an assumption in the evidence.
+		switch kind {
+		case "index", "slice", "nilderef", "typeassert", "makelen", "alloccap", "divzero", "shiftneg", "nilmap", "chansend", "chanclose", "panic", "requires", "assigns":
+			st.note("safety and callee-precondition obligations of " + shortFn(e.cur.fn) + " are assumed (opt safety assumed)")
+			st.assume(goal)
+			return
+		}
+	}
 	o := &Obligation{
 		Name: shortFn(e.cur.fn) + "/" + name, Func: e.fnKey(e.cur.fn), Kind: kind, Pos: posString(e.fset, pos),
 		Goal: goal, Props: props, Clause: clause, Trace: strings.Join(st.trace, " "), Notes: append([]string(nil), st.notes...),
@@ -527,6 +537,11 @@ func (e *Engine) atLoopHeader(st *State, fr *Frame, li *loopInfo, from *ssa.Basi
 	ctx := e.frameCtx(st, fr, li.header)
 	if back && st.ghost["$inloop/"+key].L != nil {
 		// back edge: invariant preserved + variant decreased
+		if !e.isTopFn(fr) && lfn == "" && c != nil && c.Kind == "func" {
+			// loop of an inlined callee annotated in the callee's own contract: preservation is an obligation of the
+			// callee's own verification (it is a target of the checks of its properties), not of every caller again
+			panic(pathEnd{"loop back edge (inlined callee)"})
+		}
 		for _, cl := range invs {
 			g := e.evalBool(ctx, cl.Expr)
 			e.oblige(st, "loop-inv-preserved", fmt.Sprintf("loop%s%d/inv-preserved#%d", lfnp(lfn), li.ord, cl.Ord), g, li.header.Instrs[0].Pos(), cl.Props, cl.Text)
